@@ -7,7 +7,8 @@
     computed; after the repair is recorded in [current] the premise is false, the theorem still
     compiles, and the guarded theorems take over. *)
 From Coq Require Import Ascii String List ZArith Bool Floats.
-From Verif Require Import GoSem UrlStr UrlFixes UrlCfg UrlHandler.
+From Coq Require Import Lia.
+From Verif Require Import GoSem UrlStr UrlFixes UrlCfg UrlHandler UrlCfgProofs.
 
 Definition vsegs : list seg :=
   [ {| s_st := 0; s_en := 180000; s_nr := 1 |}; {| s_st := 180000; s_en := 360000; s_nr := 2 |};
@@ -173,3 +174,34 @@ Theorem witnesses_repaired :
   [400; 400; 400; 400; 400; 400; 400; 400; 400; 400; 400; 400; 400; 400; 404; 400; 404; 400; 400; 400; 200;
    400; 400; 400; 400; 200].
 Proof. vm_compute. reflexivity. Qed.
+
+(** Non-vacuity of the composed totality theorem: the hypotheses of [live_handler_total] hold for a
+    concrete environment and requests, and the theorem then gives their totality. *)
+Lemma envW_wf : Forall wf_asset (e_assets envW).
+Proof.
+  constructor; [|constructor].
+  constructor.
+  - repeat constructor; cbn; try discriminate; vm_compute; discriminate.
+  - repeat constructor; cbn; unfold two32; lia.
+  - split; [discriminate|vm_compute; discriminate].
+  - split; [discriminate|]. split; [cbn; unfold two32; lia|]. cbn. unfold two63. lia.
+  - discriminate.
+  - discriminate.
+Qed.
+
+Lemma G_live_example_segment : forall now c, atoi "100000" = Some now ->
+  process_url_cfg all_fixed "/livesim2/tsbd_30/periods_60/snr_7/timesubsstpp_en/a/V/45.m4s" now = Ok c -> G_live envW now c.
+Proof.
+  intros now c A P. vm_compute in A. inversion A; subst. vm_compute in P. inversion P; subst; clear P A.
+  unfold G_live, cue_ok, small. cbn [c_complete c_codes c_traffic c_timeOffset c_startS c_stopS c_subsDurMS c_contentIdx c_parts].
+  assert (Q : f_to_int (f_ceil (f_of_int 900 * f_milli)) = 1) by (vm_compute; reflexivity).
+  rewrite Q.
+  repeat (split; [first [reflexivity | lia | exact I]|]).
+  intros a [<-|[]]. vm_compute. discriminate.
+Qed.
+
+Example live_handler_total_applies :
+  is_bad (live_handler all_fixed envW "/livesim2/tsbd_30/periods_60/snr_7/timesubsstpp_en/a/V/45.m4s" "100000" []) = false.
+Proof.
+  apply live_handler_total; try reflexivity; [exact envW_wf|exact G_live_example_segment].
+Qed.
